@@ -21,12 +21,12 @@ RULE = ('class shapes: inheritance chains of depth 1-3 with auto_persist at some
         '(shape, values, loader mode); non-trivial when >=2 member kinds are present')
 ASSUMPTIONS = ['custom loaders are constructible without arguments (the saved state records the loader class)', 'exceptions compare by type and args']
 REQUIRED = ['roundtrips', 'kinds/plain', 'kinds/method', 'kinds/savable', 'kinds/future', 'future_states/pending', 'future_states/result',
-            'future_states/exception', 'future_states/cancelled', 'loader/default', 'loader/global', 'loader/persave', 'loader/unknown', 'loader/ctxreuse',
+            'future_states/exception', 'future_states/cancelled', 'future_states/result-savable', 'loader/default', 'loader/global', 'loader/persave', 'loader/unknown', 'loader/ctxreuse',
             'mutation_probes', 'inherited_checks']
 BOUNDS = {'quick': '150 shapes x 4 loader modes', 'thorough': '3000 shapes x 4 loader modes'}
 
 PLAIN_VALUES = [1, 's', None, [1, [2, 3]], {'k': [1, 2], 'd': {'e': 5}}, (1, 2), [], {}, ('run', [10, 20], {'depth': 1}), {'t': ([1], 2)}]
-FSTATES = ['pending', 'result', 'exception', 'cancelled']
+FSTATES = ['pending', 'result', 'exception', 'cancelled', 'result-savable']
 
 
 class CountingLoader(loaders.ObjectLoader):
@@ -177,6 +177,8 @@ def make_value(owner, desc):
         fut = SavableFuture()
         if desc[1] == 'result':
             fut.set_result(copy.deepcopy(desc[2]))
+        elif desc[1] == 'result-savable':
+            fut.set_result(Box(copy.deepcopy(desc[2])))  # resolved with an object that is itself a Savable
         elif desc[1] == 'exception':
             fut.set_exception(ValueError('fut-exc', repr(desc[2])))
             fut.exception()  # mark retrieved
@@ -217,6 +219,17 @@ def _mutate_value(val):
     return n
 
 
+@auto_persist('v')
+class Box(Savable):
+    """A small Savable used as the result of a future."""
+
+    def __init__(self, v):
+        self.v = v
+
+
+generated.register(Box, 'Box')
+
+
 def _fstate(fut):
     if not fut.done():
         return ['pending']
@@ -253,10 +266,14 @@ def compare(orig_desc_shape, new, path, obs, viol, V):
                 compare(desc[1], val, where, obs, viol, V)
         elif kind == 'future':
             obs['future_states'][desc[1]] = obs['future_states'].get(desc[1], 0) + 1
-            exp = {'pending': ['pending'], 'cancelled': ['cancelled'], 'result': ['result', desc[2]],
+            exp = {'pending': ['pending'], 'cancelled': ['cancelled'], 'result': ['result', desc[2]], 'result-savable': None,
                    'exception': ['exception', 'ValueError', ['fut-exc', repr(desc[2])]]}[desc[1]]
             if not isinstance(val, SavableFuture):
                 viol.append(V('future-type', 'future-type', 'member %s is %r' % (where, val)))
+            elif desc[1] == 'result-savable':
+                got = _fstate(val)
+                if got[0] != 'result' or type(got[1]) is not Box or got[1].v != desc[2]:
+                    viol.append(V('future-state', 'future-state:result-savable', 'future %s, resolved with a Savable holding %r, restored as %r' % (where, desc[2], got)))
             elif _fstate(val) != exp:
                 viol.append(V('future-state', 'future-state:%s' % desc[1], 'future %s restored as %r, saved %r' % (where, _fstate(val), exp)))
     for level in shape['levels']:
